@@ -18,8 +18,7 @@ NextFunds ==
 
 NextLimits ==
   \/ \E u \in Users, t \in Tokens, a \in Amounts : Send(u, t, a, FALSE)
-  \/ \E d \in Denoms, r \in TaxRates, ex \in {{}, {1}} : SetTax(d, r, ex)
-  \/ \E d \in Denoms, lim \in Limits, ex \in {{}, {1}} : SetLimit(d, lim, ex)
+  \/ \E d \in Denoms, lim \in Limits, ex \in {{}, {1}} : limit[d] = NoLimit /\ SetLimit(d, lim, ex)
   \/ \E dh \in Jumps : Advance(dh)
 
 NextSigs ==
@@ -33,10 +32,22 @@ NextSigs ==
 
 MaxDeposit == 2
 MaxLevel == 11
+L8 == 8
+L9 == 9
+L10 == 10
 Constr == /\ lastTx <= MaxTx /\ lastBatch <= MaxBatch /\ Len(claims) <= MaxClaims /\ height <= MaxHeight
           /\ \A d \in Denoms : deposited[d] <= MaxDeposit
           /\ TLCGet("level") <= MaxLevel
+ConstrLimits == lastTx <= MaxTx /\ height <= MaxHeight /\ TLCGet("level") <= 8
+\* C15: replay the accepted, limited sends (monitor `sent`) and recompute every window from scratch
+RECURSIVE WinFold(_, _, _, _)
+WinFold(s, i, d, w) == IF i > Len(s) THEN TRUE
+  ELSE IF s[i].d # d \/ ~s[i].lim THEN WinFold(s, i + 1, d, w)
+  ELSE LET nw == IF w = NoUsage \/ s[i].h - w.start >= Period THEN [total |-> s[i].a, start |-> s[i].h]
+                  ELSE [total |-> w.total + s[i].a, start |-> w.start]
+       IN nw.total <= s[i].limit /\ WinFold(s, i + 1, d, nw)
+WindowRespected == \A d \in Denoms : WinFold(sent, 1, d, NoUsage)
 \* monitors that only accumulate history are left out of the view where they do not influence behaviour
 View == <<bal, escrow, supply, community, pool, batches, lastTx, lastBatch, tax, limit, usage, height,
-          claims, estimates, confirms, archived, jailed, refunded, burned, deposited, burnedSum, issued, punished, accepted>>
+          claims, estimates, confirms, archived, jailed, refunded, burned, deposited, burnedSum, issued, punished, accepted, sent>>
 =============================================================================
